@@ -44,7 +44,7 @@ func genTarget(rng *rand.Rand) (target string, plain bool) {
 		n := 1 + rng.Intn(4)
 		var segs []string
 		for i := 0; i < n; i++ {
-			segs = append(segs, []string{"v1", "chat", "completions", "api", "generate", "x-y_z", "file.json", "a%20b", "%C3%A9", "a%2541", "50%25", "org%252Fname"}[rng.Intn(12)])
+			segs = append(segs, []string{"v1", "chat", "completions", "api", "generate", "x-y_z", "file.json", "a%20b", "%C3%A9", "a%2541", "50%25", "org%252Fname", "meta-llama%2FLlama-3"}[rng.Intn(13)])
 		}
 		if rng.Intn(4) == 0 {
 			// the remaining path itself starts like one of Olla's own routes (one Olla fronting
@@ -112,7 +112,7 @@ func TestC16(t *testing.T) {
 		}
 	}
 	probePaths(run)
-	run.Require("probe_path_configurations", 30)
+	run.Require("probe_path_configurations", 40)
 	run.Require("forwarded_requests_judged", int64(rep.Pick(1200, 30000)))
 	run.Require("preserve_path_hostile_forwarded", int64(rep.Pick(100, 3000)))
 	run.Require("health_and_listing_paths_checked", 10)
@@ -124,7 +124,7 @@ func TestC16(t *testing.T) {
 // at boot must be base path + "/" + configured path.
 func probePaths(run *rep.Run) {
 	bases := []string{"", "/", "/base/v1", "/a/b/c/", "/engines/llama.cpp", "/v1.2/x"}
-	spell := []string{"/%s", "%s", "sub/%s", "/sub/x/%s", "./%s"}
+	spell := []string{"/%s", "%s", "sub/%s", "/sub/x/%s", "./%s", "../%s", "/../../%s"}
 	id := 0
 	for _, base := range bases {
 		for hi, hs := range spell {
@@ -141,7 +141,9 @@ func probePaths(run *rep.Run) {
 				continue
 			}
 			want := func(cfg string) string {
-				return strings.TrimRight(base, "/") + "/" + strings.TrimPrefix(strings.TrimPrefix(cfg, "./"), "/")
+				// dot segments of the configured path are resolved within it: they never climb
+				// out of the endpoint's base path
+				return strings.TrimRight(base, "/") + path.Clean("/"+cfg)
 			}
 			wantH, wantM := want(hcfg), want(mcfg)
 			var sawH, sawM bool
@@ -346,6 +348,11 @@ func runEngine(run *rep.Run, rng *rand.Rand, eng string, defs []epDef) {
 				want = strings.TrimRight(d.base, "/") + dec
 			}
 			gd, _ := url.PathUnescape(got.Path)
+			// an encoded slash is data inside a segment, not a separator: the number of path
+			// segments must survive (org%2Fname is one segment, org/name are two)
+			if gd == want && strings.Contains(strings.ToUpper(target), "%2F") && strings.Count(got.Path, "/") != strings.Count(strings.TrimRight(map[bool]string{true: d.base, false: ""}[d.preserve], "/")+target, "/") {
+				run.Violation("C16/plain-target-construction/encoded-slash-decoded", fmt.Sprintf("target %q (after %s) on endpoint %s was requested as %q: the %%2F inside a segment has become a path separator", target, prefix, d.name, got.Path), wit)
+			}
 			if gd != want && d.preserve && strings.HasSuffix(want, "/") && gd == strings.TrimSuffix(want, "/") {
 				// path.Join under preserve_path drops the trailing slash (pinned by the repository's tests)
 				run.Violation("C16/plain-target-construction/preserve_path/trailing-slash-dropped", fmt.Sprintf("target %q (after %s) on endpoint %s (base %q, preserve_path) was requested as %q: the trailing slash of the remaining path is gone", target, prefix, d.name, d.base, got.Path), wit)
